@@ -510,6 +510,14 @@ func (db *MultiBucketBackend) PutObject(
 		return result, err
 	}
 
+	// The previous object's metadata entry goes with it: its hash must never
+	// be found next to the new bytes if the process dies before the new
+	// entry is written (same size, mtime within the resolution).
+	if err := db.metaStore.deleteMeta(db.metaStore.metaPath(bucketName, objectName)); err != nil {
+		removeEmptyDirs(db.bucketFs, bucketName, filepath.ToSlash(objectDir))
+		return result, err
+	}
+
 	f, err := db.bucketFs.Create(objectFilePath)
 	if err != nil {
 		removeEmptyDirs(db.bucketFs, bucketName, filepath.ToSlash(objectDir))
